@@ -311,6 +311,11 @@ PROJECTS = [
     [("Alpha.prql", "from ta | select {a}"), ("Beta.prql", "from tb | select {b}"), ("m1.prql", "let c = 1")],
     [("m1.prql", "let a = (from ta)"), ("m2.prql", "let b = (from tb)")],
     [("Project.prql", "from m1.a | take 1"), ("m1.prql", "let a = (from ta | select {x = m2.k})"), ("m2.prql", "let k = 5")],
+    # errors in several files of one compilation: the ORDER in which they are reported is part of the outcome
+    [("Project.prql", "from alpha.t"), ("alpha.prql", "let t = (from a | select {x = 1 +})"), ("beta.prql", "let u = (from b | filter )x == 1)")],
+    [("Project.prql", "from alpha.t | select {x = }"), ("alpha.prql", "let t = (from a | select {x = 1 +})"), ("beta.prql", "let u = (from b | filter )x == 1)"), ("sub/gamma.prql", "let v = [1, 2")],
+    [("Project.prql", "from alpha.t"), ("alpha.prql", "let t = (from a | select {x = 1 +})\nlet t2 = (from a | take )"), ("beta.prql", "let ok = 1"), ("zeta.prql", "let u = (from b | filter )x == 1)\n\nlet w = {")],
+    [("b.prql", "let u = (from b | filter )x == 1)"), ("a.prql", "let t = (from a | select {x = 1 +})"), ("c.prql", "let v = 'unterminated")],
 ]
 
 
